@@ -92,6 +92,7 @@ const (
 	LHandleAssert
 	LAssertWrapped
 	LHandledMsgf
+	LStatusErrf
 	// wrappers
 	WWrap
 	WWrapf
@@ -133,6 +134,7 @@ const (
 	WFmtBare
 	WUNote
 	WUFullEmpty
+	WStatusWrapf
 	// multi-cause
 	MJoin
 	MStdJoin
@@ -196,7 +198,12 @@ func Info(k Kind) *KindInfo { return &kinds[k] }
 // Name returns the name of a kind.
 func (k Kind) String() string { return kinds[k].Name }
 
-func code(n int) codes.Code { return codes.Code(1 + n%16) }
+// code maps a drawn int to a gRPC code: the 16 predefined non-OK codes and a
+// few application-defined ones above them.
+func code(n int) codes.Code { return codes.Code(1 + n%20) }
+
+// Code is code() for other packages.
+func Code(n int) codes.Code { return code(n) }
 
 func init() {
 	def := func(k Kind, ki KindInfo) {
@@ -244,13 +251,13 @@ func init() {
 		}})
 	def(LAddr, KindInfo{Slots: "UU", Name: "net.AddrError", Groups: GNet, Weight: 2,
 		build: func(n *Node, _, _ []error) error { return &net.AddrError{Err: n.S[0].V, Addr: n.S[1].V} }})
-	def(LGrpc, KindInfo{Slots: "U", Name: "grpcstatus.Error", Groups: GGrpc, NInts: []int{16}, Weight: 3,
+	def(LGrpc, KindInfo{Slots: "U", Name: "grpcstatus.Error", Groups: GGrpc, NInts: []int{20}, Weight: 3,
 		build: func(n *Node, _, _ []error) error { return grpcstatus.Error(code(n.N[0]), n.S[0].V) }})
-	def(LGogo, KindInfo{Slots: "U", Name: "gogostatus.Error", Groups: GGrpc, NInts: []int{16}, Weight: 3,
+	def(LGogo, KindInfo{Slots: "U", Name: "gogostatus.Error", Groups: GGrpc, NInts: []int{20}, Weight: 3,
 		build: func(n *Node, _, _ []error) error { return gogostatus.Error(code(n.N[0]), n.S[0].V) }})
 	def(LTestErr, KindInfo{Name: "errorspb.TestError", Groups: GLib, Weight: 1,
 		build: func(n *Node, _, _ []error) error { return &errorspb.TestError{} }})
-	def(LStatusErr, KindInfo{Slots: "S", Name: "crdbstatus.Error", Groups: GLib | GGrpc | GStack | GAnnot, NInts: []int{16}, Weight: 2,
+	def(LStatusErr, KindInfo{Slots: "S", Name: "crdbstatus.Error", Groups: GLib | GGrpc | GStack | GAnnot, NInts: []int{20}, Weight: 2,
 		build: func(n *Node, _, _ []error) error { return crdbstatus.Error(code(n.N[0]), n.S[0].V) }})
 	def(LDomNew, KindInfo{Slots: "U", Name: "domains.New", Groups: GLib | GAnnot, Weight: 2,
 		build: func(n *Node, _, _ []error) error { return domains.New(n.S[0].V) }})
@@ -296,6 +303,11 @@ func init() {
 		build: func(n *Node, _, hid []error) error {
 			f, a := fmtArgs(n.S[0], n.A, hid)
 			return barriers.HandledWithMessagef(hid[0], f, a...)
+		}})
+	def(LStatusErrf, KindInfo{Slots: "S", Name: "crdbstatus.Errorf", Groups: GLib | GGrpc | GStack | GAnnot | GFmtArgs, NInts: []int{20}, Args: true, Weight: 2,
+		build: func(n *Node, _, hid []error) error {
+			f, a := fmtArgs(n.S[0], n.A, hid)
+			return crdbstatus.Errorf(code(n.N[0]), f, a...)
 		}})
 	// ---------------- wrappers
 	def(WWrap, KindInfo{Slots: "S", Name: "errors.Wrap", Arity: Wrap, Groups: GLib | GStack, Weight: 10,
@@ -384,9 +396,9 @@ func init() {
 		build: func(n *Node, k, hid []error) error { return errors.CombineErrors(k[0], hid[0]) }})
 	def(WHTTP, KindInfo{Name: "exthttp.WrapWithHTTPCode", Arity: Wrap, Groups: GLib | GAnnot, NInts: []int{600}, Weight: 3,
 		build: func(n *Node, k, _ []error) error { return exthttp.WrapWithHTTPCode(k[0], n.N[0]) }})
-	def(WGrpcCode, KindInfo{Name: "extgrpc.WrapWithGrpcCode", Arity: Wrap, Groups: GLib | GGrpc | GAnnot, NInts: []int{16}, Weight: 3,
+	def(WGrpcCode, KindInfo{Name: "extgrpc.WrapWithGrpcCode", Arity: Wrap, Groups: GLib | GGrpc | GAnnot, NInts: []int{20}, Weight: 3,
 		build: func(n *Node, k, _ []error) error { return extgrpc.WrapWithGrpcCode(k[0], code(n.N[0])) }})
-	def(WStatusWrap, KindInfo{Slots: "S", Name: "crdbstatus.WrapErr", Arity: Wrap, Groups: GLib | GGrpc | GStack | GAnnot, NInts: []int{16}, Weight: 2,
+	def(WStatusWrap, KindInfo{Slots: "S", Name: "crdbstatus.WrapErr", Arity: Wrap, Groups: GLib | GGrpc | GStack | GAnnot, NInts: []int{20}, Weight: 2,
 		build: func(n *Node, k, _ []error) error { return crdbstatus.WrapErr(code(n.N[0]), n.S[0].V, k[0]) }})
 	def(WPkgWrap, KindInfo{Slots: "U", Name: "pkgerrors.Wrap", Arity: Wrap, Groups: GPkg | GStack,
 		build: func(n *Node, k, _ []error) error { return pkgerrors.Wrap(k[0], n.S[0].V) }})
@@ -439,6 +451,11 @@ func init() {
 				return &UWrapNote{Cause: k[0]}
 			}
 			return &UWrapNote{Note: n.S[0].V, Cause: k[0]}
+		}})
+	def(WStatusWrapf, KindInfo{Slots: "S", Name: "crdbstatus.WrapErrf", Arity: Wrap, Groups: GLib | GGrpc | GStack | GAnnot | GFmtArgs, NInts: []int{20}, Args: true, Weight: 2,
+		build: func(n *Node, k, hid []error) error {
+			f, a := fmtArgs(n.S[0], n.A, hid)
+			return crdbstatus.WrapErrf(code(n.N[0]), k[0], f, a...)
 		}})
 	// a wrapper that overrides its cause's message with the empty string
 	// (only enabled by properties whose quantifier does not exclude empty messages)
